@@ -30,7 +30,7 @@ func init() {
 		Level: "exploration",
 		Cases: func(tier string) int { return tierN(tier, 4000, 80000) },
 		Run:   runC11,
-		Rule: "case = (multihash configuration with file limits 50-1000 bytes, key universe, fill history that spreads records over several files, then a kill phase that removes/overwrites all keys of chosen non-current files, or all but a few (low-use scenario), followed by Flush and harness-driven GC cycles with a Flush after each; some cases start with cycles stopped midway by a synthetic deadline). Oracle on directory listings, sizes, StorageSize and fsck's decoded layout: (a) every non-current primary file without live records is zero-length or unlinked within 4 primary cycles, and unlinked if it was the oldest file when visited; (b) every non-current index file no bucket refers into is zero-length or unlinked within 4 index cycles; (c) a primary file whose free share is >= threshold+10% is drained and released within live+4 cycles; (d) a cycle that relocated nothing does not grow StorageSize, otherwise growth is bounded by the relocated records, their rewritten record lists and 24 bytes of freelist per record; (e) after the bounds one more primary+index cycle and Flush changes no file. " +
+		Rule: "case = (multihash configuration with file limits 50-1000 bytes, key universe, fill history that spreads records over several files, then a kill phase that removes/overwrites all keys of chosen non-current files, or all but a few (low-use scenario), followed by Flush and harness-driven GC cycles with a Flush after each; some cases start with cycles stopped midway by a synthetic deadline; in a quarter of the cases EVERY primary cycle is time-limited with a budget that expires while its first unvisited file is scanned, and the bounds grow by the number of non-current files). Oracle on directory listings, sizes, StorageSize and fsck's decoded layout: (a) every non-current primary file without live records is zero-length or unlinked within 4 primary cycles, and unlinked if it was the oldest file when visited; (b) every non-current index file no bucket refers into is zero-length or unlinked within 4 index cycles; (c) a primary file whose free share is >= threshold+10% is drained and released within live+4 cycles; (d) a cycle that relocated nothing does not grow StorageSize, otherwise growth is bounded by the relocated records, their rewritten record lists and 24 bytes of freelist per record; (e) after the bounds one more primary+index cycle and Flush changes no file. " +
 			"non-trivial iff at least one dead or low-use file existed and was released; distinct = hash of (configuration, digests, operations, scenario)",
 		Assumptions: []string{
 			"progress is measured in harness-driven cycles with a Flush between cycles (the statement's 'change flushed')",
@@ -293,6 +293,32 @@ func runC11(c run.Ctx) *core.CaseResult {
 	if n := liveTotal + 4; len(lowUse) > 0 && n > bound {
 		bound = n
 	}
+	// variant: EVERY primary cycle is time-limited and its budget expires while its first unvisited
+	// file is being scanned, so a cycle gets exactly one file done; progress must then still be made
+	// file by file, within (number of non-current files + the usual bound) cycles
+	everyLimited := c.Index%4 == 1
+	gcpLimit := 0
+	primBound := c11B1
+	if everyLimited {
+		gcpLimit = 1001
+		nfiles := 0
+		for _, f := range l1.PrimFileNums() {
+			if f < curPrim {
+				nfiles++
+			}
+		}
+		// a low-use file ahead in the order is revisited every cycle until it is drained (two
+		// records per cycle), which delays the files behind it: allow for that as well
+		liveAll := 0
+		for f, n := range liveIn {
+			if f < curPrim {
+				liveAll += n
+			}
+		}
+		primBound = 2*nfiles + liveAll + c11B1
+		bound += 2*nfiles + liveAll
+		res.Add("cases_with_every_cycle_time_limited", 1)
+	}
 	primReleasedAt := map[uint32]int{}
 	idxReleasedAt := map[uint32]int{}
 	lowReleasedAt := map[uint32]int{}
@@ -301,7 +327,7 @@ func runC11(c run.Ctx) *core.CaseResult {
 	for i := 1; i <= bound; i++ {
 		sizeBefore, _ := rn.S.StorageSize()
 		visits = visits[:0]
-		do(seq.Op{Kind: "gcp", A: threshold})
+		do(seq.Op{Kind: "gcp", A: threshold, B: gcpLimit})
 		do(seq.Op{Kind: "flush"})
 		do(seq.Op{Kind: "gci", A: i % 2})
 		do(seq.Op{Kind: "flush"})
@@ -365,10 +391,10 @@ func runC11(c run.Ctx) *core.CaseResult {
 				idxReleasedAt[f] = i
 			}
 		}
-		if i == c11B1 {
+		if i == primBound {
 			for _, f := range deadPrim {
 				if _, ok := primReleasedAt[f]; !ok {
-					res.Violate("gc-progress", "c11-dead-primary-file-not-released", step, nil, "non-current primary file %d holds no live record but is neither empty nor unlinked after %d primary GC cycles (size %d)", f, c11B1, ds.files[fmt.Sprintf("d/sth.data.%d", f)])
+					res.Violate("gc-progress", "c11-dead-primary-file-not-released", step, nil, "non-current primary file %d holds no live record but is neither empty nor unlinked after %d primary GC cycles (size %d)", f, primBound, ds.files[fmt.Sprintf("d/sth.data.%d", f)])
 				}
 			}
 		}
